@@ -1,7 +1,8 @@
 (* C10 -- Incomplete rows are handled exactly as documented. *)
 From Coq Require Import QArith List Bool.
 From Zepid Require Import Base.QSum Base.QUtil Base.Rows Proofs.RowsProofs Model.Estimators Proofs.EstimatorsProofs
-     Model.Gate Proofs.GateProofs Model.Frames Proofs.FramesProofs.
+     Model.Gate Proofs.GateProofs Model.Frames Proofs.FramesProofs GenProofs.GenProofs_gate.
+From ZepidGen Require Import Gen_gate_Q.
 Import ListNotations.
 Open Scope Q_scope.
 
@@ -53,6 +54,13 @@ Example C10_nonvacuous :
   observed_indicator ex10 = [true; false].
 Proof. vm_compute. repeat split; reflexivity. Qed.
 
+(* check_input_data of the CURRENT source (regenerated on every run: the dropna subsets that count and keep rows in the two
+   branches, and the missing-outcome flag) is the gate of the model; with C10_gate_ignores_incomplete: rows missing the exposure
+   or a covariate never reach an estimator, rows missing only the outcome are kept exactly by the keep-outcome estimators *)
+Theorem C10_src_gate : forall rows,
+  gate_drop_all_Q rows = gate true rows /\ gate_keep_Q rows = gate false rows /\ miss_flag_Q rows = miss_flag rows.
+Proof. intros rows. split; [apply gen_gate_drop_all|split; [apply gen_gate_keep|apply gen_miss_flag]]. Qed.
+
 Print Assumptions C10_gate_ignores_incomplete.
 Print Assumptions C10_gate_idem.
 Print Assumptions C10_missing_flag_ignores_incomplete.
@@ -63,3 +71,4 @@ Print Assumptions C10_measures_count_missing.
 Print Assumptions C10_iptw_missing_std.
 Print Assumptions C10_tmle_missing_std.
 Print Assumptions C10_gformula_missing_std.
+Print Assumptions C10_src_gate.
